@@ -153,7 +153,8 @@ def quoted_parameter_pairs(chk):
         if a["outcome"] == "ok" and rel.result_key(a) != rel.result_key(b):
             sig = {"rewrite": "quote", "base": a["outcome"], "variant": b["outcome"], "msg": (b.get("err") or {}).get("msg", ""), "detail": nm}
             chk.violation("rewriting 'quote' changed the result: bare %s, quoted %s | quoted document:\n%s" % (rel.describe(a), rel.describe(b), text),
-                          {"kind": "pair", "rewrite": "quote", "doc": [], "base": base, "variant": text, "signature": sig}, sig)
+                          {"kind": "pair", "rewrite": "quote", "doc": [], "base": base, "variant": text, "signature": sig,
+                           "files": {"inc.jst": "TYPE @zinc any\n"} if nm == "include_file_name" else {}}, sig)
 
 
 def main(tier):
@@ -252,7 +253,10 @@ def replay(path):
         if (o["a"]["err_idx"] >= 0) != (o["b"]["err_idx"] >= 0) or (o["a"]["err_idx"] < 0 and lex_view(base, o["a"]) != lex_view(var, o["b"])):
             chk.violation("reproduced", rp, rp.get("signature"))
         return chk.finish()
-    obs = harness("run", [rel.case("a", rp["base"]), rel.case("b", rp["variant"])])
+    from common import b64
+    more = {k: b64(v) for k, v in (rp.get("files") or {}).items()}        # the files an INCLUDE of the pair names
+    mk = lambda cid, text: {"id": cid, "files": dict(more, **{"main.jst": b64(text)}), "root": "main.jst"} if more else rel.case(cid, text)
+    obs = harness("run", [mk("a", rp["base"]), mk("b", rp["variant"])])
     chk.evaluations = 1
     if rel.result_key(obs["a"]) != rel.result_key(obs["b"]):
         chk.violation("rewriting changed the result: %s vs %s" % (rel.describe(obs["a"]), rel.describe(obs["b"])), rp, rp.get("signature"))
